@@ -10,7 +10,7 @@
    byte order (hence duplicate-free).  [bltb start x] = start < x.  [wire] is what an
    error turns into when it crosses HTTP (arbitrary function; property C07 owns it). *)
 From Coq Require Import String.
-From OCI Require Import Model.Listing Model.ListingSpec Model.ListingLegacy Proofs.Seq Proofs.Listing Proofs.ListingStack Proofs.ListingFast.
+From OCI Require Import Model.Listing Model.ListingSpec Model.ListingLegacy Model.ListingCtx Proofs.Seq Proofs.Listing Proofs.ListingStack Proofs.ListingFast Proofs.ListingCtx.
 
 (* ------------------------------------------------------------------ the iterator protocol *)
 
@@ -344,6 +344,29 @@ Theorem C05_stack_closed_form :
   calls (listing k q start) y s = trace_of (expected k q start) None y s.
 Proof. exact listing_closed. Qed.
 Print Assumptions C05_stack_closed_form.
+
+(* A context that becomes done part-way (Model/ListingCtx.v: the context is a predicate on the
+   consumer's state, read by the client pager before every page request and handed on by
+   Select, Sub and debug).  For EVERY stack (no hypothesis), query, start point and call j during
+   which the context is cancelled, the consumer that accepts everything sees the calls of the
+   complete listing (xs, oe) - the one every consumer sees with a live context - or the calls
+   of a prefix of xs followed by the context error: never a prefix followed by nothing. *)
+Theorem C05_cancelled_complete_or_error :
+  forall k q start j,
+  exists xs oe,
+    represents (listing k q start) xs oe
+    /\ (calls_c (listing_c k q start) j = trace_of xs oe (cancel_at j) 0%N
+        \/ exists pre post, xs = pre ++ post
+                            /\ calls_c (listing_c k q start) j = trace_of pre (Some ctx_error) (cancel_at j) 0%N).
+Proof. exact listing_c_calls. Qed.
+Print Assumptions C05_cancelled_complete_or_error.
+
+(* ... against any consumer and any way the context depends on the consumer's state: the
+   context-taking listing of a stack is [cgood] with respect to its plain listing *)
+Theorem C05_context_any_consumer :
+  forall k fuel q start, cgood (ask_c (interp_c fuel k) q start) (ask (interp fuel k) q start).
+Proof. exact interp_c_cgood. Qed.
+Print Assumptions C05_context_any_consumer.
 
 (* well-formed stacks exist at every shape; one with two hops, a Sub, a Select and a unify *)
 Example C05_stack_example :
